@@ -66,9 +66,16 @@ class Property(Node):
         f = "%(tab)s%(property)s:%(ws)s%(style)s%(important)s;%(nl)s"
         imp = ' !important' if self.important else ''
         if fills['nl']:
-            self.parsed = [
-                ',%s' % fills['ws'] if p == ',' else p for p in self.parsed
-            ]
+            # a space after the commas of the value list, not after a comma
+            # that is a piece of an interpolated string
+            spaced = []
+            quote = None
+            for p in self.parsed:
+                if p in ('"', "'"):
+                    quote = None if quote == p else (quote or p)
+                spaced.append(',%s' % fills['ws']
+                              if p == ',' and quote is None else p)
+            self.parsed = spaced
         style = ''.join([
             p.fmt(fills) if hasattr(p, 'fmt') else str(p) for p in self.parsed
         ])
